@@ -1692,8 +1692,9 @@ CaseX86M_GPB_MulDiv:
           opcode = 0;
           opcode.add_arith_by_size(o0.x86_rm_size());
 
-          // Handle a special form of `mov al|ax|eax|rax, [ptr64]` that doesn't use MOD.
-          if (op_reg == Gp::kIdAx && !rm_rel->as<Mem>().has_base_or_index()) {
+          // Handle a special form of `mov al|ax|eax|rax, [ptr64]` that doesn't use MOD (AH shares the id of AL, but the
+          // moffs forms only exist for the accumulator).
+          if (op_reg == Gp::kIdAx && !o0.as<Gp>().is_gp8_hi() && !rm_rel->as<Mem>().has_base_or_index()) {
             if (x86_should_use_movabs(this, writer, o0.x86_rm_size(), options, rm_rel->as<Mem>())) {
               opcode += 0xA0u;
               imm_value = rm_rel->as<Mem>().offset();
@@ -1725,8 +1726,8 @@ CaseX86M_GPB_MulDiv:
           opcode = 0;
           opcode.add_arith_by_size(o1.x86_rm_size());
 
-          // Handle a special form of `mov [ptr64], al|ax|eax|rax` that doesn't use MOD.
-          if (op_reg == Gp::kIdAx && !rm_rel->as<Mem>().has_base_or_index()) {
+          // Handle a special form of `mov [ptr64], al|ax|eax|rax` that doesn't use MOD (not AH, see above).
+          if (op_reg == Gp::kIdAx && !o1.as<Gp>().is_gp8_hi() && !rm_rel->as<Mem>().has_base_or_index()) {
             if (x86_should_use_movabs(this, writer, o1.x86_rm_size(), options, rm_rel->as<Mem>())) {
               opcode += 0xA2u;
               imm_value = rm_rel->as<Mem>().offset();
@@ -1806,7 +1807,7 @@ CaseX86M_GPB_MulDiv:
         opcode = 0xA0;
         opcode.add_arith_by_size(o0.x86_rm_size());
 
-        if (ASMJIT_UNLIKELY(!o0.as<Reg>().is_gp()) || op_reg != Gp::kIdAx)
+        if (ASMJIT_UNLIKELY(!o0.as<Reg>().is_gp()) || op_reg != Gp::kIdAx || o0.as<Gp>().is_gp8_hi())
           goto InvalidInstruction;
 
         if (ASMJIT_UNLIKELY(rm_rel->as<Mem>().has_base_or_index()))
@@ -1827,7 +1828,7 @@ CaseX86M_GPB_MulDiv:
         opcode = 0xA2;
         opcode.add_arith_by_size(o1.x86_rm_size());
 
-        if (ASMJIT_UNLIKELY(!o1.as<Reg>().is_gp()) || op_reg != Gp::kIdAx)
+        if (ASMJIT_UNLIKELY(!o1.as<Reg>().is_gp()) || op_reg != Gp::kIdAx || o1.as<Gp>().is_gp8_hi())
           goto InvalidInstruction;
 
         if (ASMJIT_UNLIKELY(rm_rel->as<Mem>().has_base_or_index()))
